@@ -103,6 +103,12 @@ func refHMACValid(c hmacCfg, token string) h.Tri {
 	return h.Yes
 }
 
+// junkGen: text that is not base64url (or leaves a dangling character), optionally followed by more characters.
+var junkGen = rapid.Custom(func(t *rapid.T) string {
+	return rapid.SampledFrom([]string{"!", "*", "%", " ", "=", "~", "+", "/", "\x00", "é", "A"}).Draw(t, "junkChar") +
+		rapid.SampledFrom([]string{"", "", "A", "AAAA", "xyz"}).Draw(t, "junkTail")
+})
+
 func secretGen(label string) *rapid.Generator[[]byte] {
 	return rapid.Custom(func(t *rapid.T) []byte {
 		n := rapid.SampledFrom([]int{32, 32, 32, 33, 48, 64, 40}).Draw(t, label+"-len")
@@ -117,7 +123,7 @@ func TestC06_HMACLayer(t *testing.T) {
 	rapid.Check(t, func(rt *rapid.T) {
 		var c hmacCfg
 		c.hasher = rapid.SampledFrom([]string{"", "", "sha256", "sha512"}).Draw(rt, "hasher")
-		c.entropy = rapid.SampledFrom([]int{0, 0, 16, 32, 33, 64}).Draw(rt, "entropy")
+		c.entropy = rapid.SampledFrom([]int{0, 0, 16, 32, 33, 48, 64, 96}).Draw(rt, "entropy")
 		c.global = secretGen("global").Draw(rt, "globalSecret")
 		nrot := rapid.IntRange(0, 3).Draw(rt, "nRotated")
 		for i := 0; i < nrot; i++ {
@@ -214,7 +220,7 @@ func TestC06_HMACLayer(t *testing.T) {
 		k2, s2, _ := strings.Cut(tok2, ".")
 
 		// one named edit
-		edit := rapid.SampledFrom([]string{"none", "none", "flip-key-bit", "flip-sig-bit", "truncate-sig", "truncate-key", "extend-sig", "extend-key", "swap-sig", "swap-key", "no-dot", "extra-dot", "empty-key", "empty-sig", "padding", "newline", "reencode-key-trailing-bits", "std-alphabet"}).Draw(rt, "edit")
+		edit := rapid.SampledFrom([]string{"none", "none", "flip-key-bit", "flip-sig-bit", "truncate-sig", "truncate-key", "extend-sig", "extend-key", "swap-sig", "swap-key", "no-dot", "extra-dot", "empty-key", "empty-sig", "padding", "newline", "reencode-key-trailing-bits", "std-alphabet", "junk-after-key", "junk-after-sig", "junk-inside-key"}).Draw(rt, "edit")
 		mut := tok
 		ds, _ := base64.RawURLEncoding.DecodeString(spart)
 		enc := base64.RawURLEncoding.EncodeToString
@@ -264,6 +270,14 @@ func TestC06_HMACLayer(t *testing.T) {
 			}
 		case "std-alphabet":
 			mut = strings.NewReplacer("-", "+", "_", "/").Replace(tok)
+		case "junk-after-key":
+			// characters a lenient decoder stops at: everything before them still decodes to the minted bytes
+			mut = kpart + junkGen.Draw(rt, "junk") + "." + spart
+		case "junk-after-sig":
+			mut = kpart + "." + spart + junkGen.Draw(rt, "junk")
+		case "junk-inside-key":
+			i := rapid.IntRange(1, len(kpart)-1).Draw(rt, "at")
+			mut = kpart[:i] + junkGen.Draw(rt, "junk") + kpart[i:] + "." + spart
 		}
 		validator := &fhmac.HMACStrategy{Config: c.config()}
 		got := validator.Validate(ctx, mut)
@@ -305,8 +319,10 @@ func TestC06_EndToEnd(t *testing.T) {
 		newSecret := []byte("new-global-secret-0123456789-0123456789-abc")
 		store := rapid.SampledFrom([]string{"mem", "tx"}).Draw(rt, "store")
 		rtLife := rapid.SampledFrom([]int{0, 0, -1, 3600}).Draw(rt, "refreshLifespan")
+		entropy := rapid.SampledFrom([]int{0, 0, 33, 48}).Draw(rt, "tokenEntropy")
 		w := h.NewWorld(h.Spec{Store: store, RefreshScopes: []string{}, Mutate: func(c *fosite.Config) {
 			c.GlobalSecret = oldSecret
+			c.TokenEntropy = entropy
 			c.RefreshTokenLifespan = time.Duration(rtLife) * time.Second
 			if rtLife < 0 {
 				c.RefreshTokenLifespan = -1
@@ -368,7 +384,7 @@ func TestC06_EndToEnd(t *testing.T) {
 		obody := other[len(prefix):]
 		kp, sp, _ := strings.Cut(body, ".")
 		okp, osp, _ := strings.Cut(obody, ".")
-		edit := rapid.SampledFrom([]string{"none", "none", "other-random-with-stored-signature", "stored-random-with-other-signature", "flip-random", "flip-signature", "truncate", "extend", "foreign-secret", "no-prefix", "wrong-prefix", "double-prefix", "upper-prefix", "missing-dot", "extra-part", "empty"}).Draw(rt, "edit")
+		edit := rapid.SampledFrom([]string{"none", "none", "other-random-with-stored-signature", "stored-random-with-other-signature", "flip-random", "flip-signature", "truncate", "extend", "foreign-secret", "no-prefix", "wrong-prefix", "double-prefix", "upper-prefix", "missing-dot", "extra-part", "empty", "junk-after-random", "junk-after-signature"}).Draw(rt, "edit")
 		mut := cred
 		flip := func(s string) string {
 			i := rapid.IntRange(0, len(s)-1).Draw(rt, "pos")
@@ -403,6 +419,10 @@ func TestC06_EndToEnd(t *testing.T) {
 			mut = cred + "." + sp
 		case "empty":
 			mut = ""
+		case "junk-after-random":
+			mut = prefix + kp + junkGen.Draw(rt, "junk") + "." + sp
+		case "junk-after-signature":
+			mut = cred + junkGen.Draw(rt, "junk")
 		}
 		if mut == cred {
 			edit = "none"
@@ -505,7 +525,8 @@ func TestC06_JWT(t *testing.T) {
 			rt.Fatalf("VERIF-INFRA: no JWT access token: %q", tok)
 		}
 		// stateless validator over the same key
-		keyGetter := func(context.Context) (interface{}, error) { return h.RSAKey(0), nil }
+		currentKey := 0
+		keyGetter := func(context.Context) (interface{}, error) { return h.RSAKey(currentKey), nil }
 		stateless := &foauth2.StatelessJWTValidator{Signer: &jwt.DefaultSigner{GetPrivateKey: keyGetter}, Config: w.Cfg}
 		_ = compose.OAuth2StatelessJWTIntrospectionFactory
 		p := strings.Split(tok, ".")
@@ -522,7 +543,7 @@ func TestC06_JWT(t *testing.T) {
 			}
 			return n
 		}
-		edit := rapid.SampledFrom([]string{"none", "none", "alg-none-no-sig", "alg-none-with-sig", "alg-none-caps", "hs256-pubkey", "hs256-empty-key", "other-rsa-key", "payload-edit", "header-edit", "sig-of-other-token", "flip-sig", "strip-sig", "json-serialization", "ec-key-same-alg-name", "exp-extended", "four-parts", "payload-of-other-token"}).Draw(rt, "edit")
+		edit := rapid.SampledFrom([]string{"none", "none", "alg-none-no-sig", "alg-none-with-sig", "alg-none-caps", "hs256-pubkey", "hs256-empty-key", "other-rsa-key", "payload-edit", "header-edit", "sig-of-other-token", "flip-sig", "strip-sig", "json-serialization", "ec-key-same-alg-name", "exp-extended", "four-parts", "payload-of-other-token", "key-rotated-away"}).Draw(rt, "edit")
 		mut := tok
 		claims := cp(cl0)
 		header := cp(hd)
@@ -585,11 +606,35 @@ func TestC06_JWT(t *testing.T) {
 			return
 		}
 		same := mut == tok || (edit == "payload-of-other-token" && p[1] == p2[1])
+		// history: the untampered token may have been presented (and accepted) before the tampered one arrives
+		warm := rapid.Bool().Draw(rt, "genuinePresentedFirst")
+		if warm {
+			d0 := w.IntrospectDirect(tok, fosite.AccessToken)
+			_, e0 := stateless.IntrospectToken(context.Background(), tok, fosite.AccessToken, fosite.NewAccessRequest(h.NewSess("")), nil)
+			if !d0.Active || e0 != nil {
+				h.Violate(rt, "C06/jwt/rejects-valid", "untampered JWT access token refused: stateful=%v stateless=%v", d0.Err, e0)
+			}
+			h.Label("jwt/genuine-presented-first")
+		}
+		if edit == "key-rotated-away" {
+			// the operator replaces the signing key: a token signed under the key the server no longer has must not
+			// be accepted by the validator that only knows the current key (the storage-backed path keeps its own key)
+			currentKey = 1
+			_, serr := stateless.IntrospectToken(context.Background(), tok, fosite.AccessToken, fosite.NewAccessRequest(h.NewSess("")), nil)
+			h.Case(fmt.Sprintf("jwt/%s/warm=%v", edit, warm), true, func() any {
+				return map[string]any{"layer": "jwt", "edit": edit, "genuine_presented_first": warm, "stateless_accepted": serr == nil}
+			})
+			h.Label("jwt/edit=" + edit)
+			if serr == nil {
+				h.Violate(rt, "C06/jwt/accepts-invalid/stateless", "JWT access token signed under a key the validator no longer has was accepted (genuine presented before the key change: %v)", warm)
+			}
+			return
+		}
 		d := w.IntrospectDirect(mut, fosite.AccessToken)
 		ar := fosite.NewAccessRequest(h.NewSess(""))
 		_, serr := stateless.IntrospectToken(context.Background(), mut, fosite.AccessToken, ar, nil)
-		h.Case("jwt/"+edit, edit != "none", func() any {
-			return map[string]any{"layer": "jwt", "edit": edit, "stateful_active": d.Active, "stateless_accepted": serr == nil}
+		h.Case(fmt.Sprintf("jwt/%s/warm=%v", edit, warm), edit != "none", func() any {
+			return map[string]any{"layer": "jwt", "edit": edit, "genuine_presented_first": warm, "stateful_active": d.Active, "stateless_accepted": serr == nil}
 		})
 		h.Label("jwt/edit=" + edit)
 		if same {
@@ -603,6 +648,12 @@ func TestC06_JWT(t *testing.T) {
 		}
 		if serr == nil {
 			h.Violate(rt, "C06/jwt/accepts-invalid/stateless", "JWT access token with edit %q accepted by the stateless JWT introspector\n presented=%q", edit, mut)
+		}
+		// a refused forgery must not poison the untampered token
+		d1 := w.IntrospectDirect(tok, fosite.AccessToken)
+		_, e1 := stateless.IntrospectToken(context.Background(), tok, fosite.AccessToken, fosite.NewAccessRequest(h.NewSess("")), nil)
+		if !d1.Active || e1 != nil {
+			h.Violate(rt, "C06/jwt/rejects-valid", "untampered JWT access token refused after a forgery (%s) was presented: stateful=%v stateless=%v", edit, d1.Err, e1)
 		}
 	})
 	h.MarkCompleted()
